@@ -261,7 +261,8 @@ Proof.
       { intros c Hc. apply (above_child anc p nd c Hab N). rewrite Ecs. exact Hc. }
       clear Ecs. revert ms Hms. induction Hls as [|c l cs ls Hc _ IHl]; intros ms Hms; inversion Hms; subst; [reflexivity|].
       cbn [map]. f_equal.
-      - eapply IH; eauto. apply Hcs. left; reflexivity.
+      - match goal with HM : mult g f2 c = Some _ |- _ =>
+          exact (IH (anc ++ [Z.pos p]) c l f2 _ (Hcs c (or_introl eq_refl)) Hc HM) end.
       - apply IHl; [|assumption]. intros; apply Hcs; right; assumption. }
     destruct nd as [id|cs|cs].
     + inversion H; inversion M; subst. reflexivity.
@@ -303,3 +304,269 @@ Proof.
   - destruct CH as [ls ->]. eexists; reflexivity.
 Qed.
 End Branches.
+
+(* ------------------------------------------------------------------ the sort by mx *)
+Lemma insert_mx_perm {T} (x : proof T) l : Permutation (insert_mx x l) (x :: l).
+Proof.
+  induction l as [|y r IH]; cbn [insert_mx]; [reflexivity|].
+  destruct (p_mx x <=? p_mx y)%Z; [reflexivity|].
+  rewrite IH. apply perm_swap.
+Qed.
+
+Lemma sort_mx_perm {T} (l : list (proof T)) : Permutation (sort_mx l) l.
+Proof.
+  induction l as [|x l IH]; cbn [sort_mx fold_right]; [reflexivity|].
+  rewrite insert_mx_perm. constructor. exact IH.
+Qed.
+
+Definition mx_le {T} (x y : proof T) : Prop := (p_mx x <= p_mx y)%Z.
+
+Lemma insert_mx_sorted {T} (x : proof T) l : Sorted mx_le l -> Sorted mx_le (insert_mx x l).
+Proof.
+  induction 1 as [|y r Hs IH Hh]; cbn [insert_mx]; [repeat constructor|].
+  destruct (p_mx x <=? p_mx y)%Z eqn:E.
+  - constructor; [constructor; assumption|]. constructor. unfold mx_le. lia.
+  - constructor; [exact IH|].
+    destruct r as [|z r']; cbn [insert_mx].
+    + constructor. unfold mx_le. lia.
+    + destruct (p_mx x <=? p_mx z)%Z; constructor; unfold mx_le; [lia|].
+      inversion Hh; assumption.
+Qed.
+
+Lemma sort_mx_sorted {T} (l : list (proof T)) : Sorted mx_le (sort_mx l).
+Proof.
+  induction l as [|x l IH]; cbn [sort_mx fold_right]; [constructor|].
+  apply insert_mx_sorted. exact IH.
+Qed.
+
+(* stability: the proofs with one and the same mx keep their relative order *)
+Lemma insert_mx_stable {T} (x : proof T) l m :
+  filter (fun p => (p_mx p =? m)%Z) (insert_mx x l) = filter (fun p => (p_mx p =? m)%Z) (x :: l).
+Proof.
+  induction l as [|y r IH]; cbn [insert_mx]; [reflexivity|].
+  destruct (p_mx x <=? p_mx y)%Z eqn:E; [reflexivity|].
+  cbn [filter] in *. rewrite IH.
+  destruct (p_mx x =? m)%Z eqn:Ex, (p_mx y =? m)%Z eqn:Ey; try reflexivity. lia.
+Qed.
+
+Lemma sort_mx_stable {T} (l : list (proof T)) m :
+  filter (fun p => (p_mx p =? m)%Z) (sort_mx l) = filter (fun p => (p_mx p =? m)%Z) l.
+Proof.
+  induction l as [|x l IH]; cbn [sort_mx fold_right]; [reflexivity|].
+  rewrite insert_mx_stable. cbn [filter]. fold (sort_mx l). rewrite IH. reflexivity.
+Qed.
+
+(* ------------------------------------------------------------------ counting the satisfied entry *)
+Lemma count_unique {A} (P Q : A -> bool) (l : list A) x :
+  NoDup l -> In x l -> P x = true -> (forall y, In y l -> P y = true -> y = x) ->
+  length (filter (fun y => Q y && P y) l) = if Q x then 1 else 0.
+Proof.
+  induction 1 as [|z l Hz Hnd IH]; intros Hin Px Hu; [destruct Hin|].
+  cbn [filter]. destruct Hin as [->|Hin].
+  - rewrite Px, andb_true_r.
+    assert (filter (fun y => Q y && P y) l = []) as ->.
+    { clear IH. induction l as [|w l IHl]; [reflexivity|]. cbn [filter].
+      destruct (P w) eqn:Pw.
+      - exfalso. apply Hz. left. apply Hu; [right; left; reflexivity|assumption].
+      - rewrite andb_false_r. apply IHl.
+        + intros H. apply Hz. right. assumption.
+        + inversion Hnd; assumption.
+        + intros y Hy. apply Hu. destruct Hy as [->|Hy]; [left; reflexivity|right; right; assumption]. }
+    destruct (Q x); reflexivity.
+  - assert (P z = false) as ->.
+    { destruct (P z) eqn:Pz; [|reflexivity]. exfalso. apply Hz.
+      rewrite (Hu z (or_introl eq_refl) Pz). assumption. }
+    rewrite andb_false_r. apply IH; auto. intros y Hy. apply Hu. right. assumption.
+Qed.
+
+Lemma filter_map_swap {A B} (P : B -> bool) (f : A -> B) l :
+  filter P (map f l) = map f (filter (fun x => P (f x)) l).
+Proof. induction l as [|x l IH]; cbn; [reflexivity|]. destruct (P (f x)); cbn; rewrite IH; reflexivity. Qed.
+
+Lemma filter_filter {A} (P Q : A -> bool) l : filter P (filter Q l) = filter (fun x => Q x && P x) l.
+Proof. induction l as [|x l IH]; cbn; [reflexivity|]. destruct (Q x); cbn; [destruct (P x)|]; rewrite IH; reflexivity. Qed.
+
+Lemma val_not_false (tv : Z -> bool) k : val tv k = true -> negb (is_false k) = true.
+Proof. destruct k; [reflexivity|discriminate]. Qed.
+
+(* the entries of _select_sublist that pass an extra test Q and whose constraint holds *)
+Lemma select_count {T} (tv : Z -> bool) (lst : list (T * key)) (Q : list T * list key -> bool) :
+  exists n, (n < 2 ^ N.of_nat (nbits lst))%N /\ holds tv (snd (entry lst n)) = true /\
+    length (filter (fun e => Q e && holds tv (snd e)) (select_sublist lst)) = if Q (entry lst n) then 1 else 0.
+Proof.
+  destruct (partition_exists tv lst) as (n & Hn & Hh). exists n. split; [assumption|]. split; [assumption|].
+  unfold select_sublist. rewrite filter_map_swap, map_length.
+  apply (count_unique (fun m => holds tv (snd (entry lst m))) (fun m => Q (entry lst m))).
+  - apply countdown_nodup.
+  - apply countdown_spec. assumption.
+  - assumption.
+  - intros m Hm Hhm. apply countdown_spec in Hm. apply (partition_unique tv lst m n Hm Hn Hhm Hh).
+Qed.
+
+Lemma select_holds_list {T} (tv : Z -> bool) (lst : list (T * key)) e :
+  In e (select_sublist lst) -> holds tv (snd e) = true ->
+  fst e = map fst (filter (fun x => val tv (snd x)) lst).
+Proof.
+  unfold select_sublist. rewrite in_map_iff. intros (n & <- & _) H. apply selected_sublist. exact H.
+Qed.
+
+(* ------------------------------------------------------------------ findall/3 *)
+Section Findall.
+Context {T : Type}.
+Variables (tv : Z -> bool) (cn : list key -> key).
+(* target.add_and(n) has the value of the conjunction of n (builder property), for the
+   constraint lists that _select_sublist yields on lst *)
+Definition cn_ok (lst : list (T * key)) : Prop :=
+  forall e, In e (select_sublist lst) -> val tv (cn (snd e)) = holds tv (snd e).
+
+Lemma out_filter (Q : list T * list key -> bool) (lst : list (T * key)) : cn_ok lst ->
+  filter (fun e => val tv (snd e))
+         (map (fun e => (fst e, cn (snd e)))
+              (filter (fun e => Q e && negb (is_false (cn (snd e)))) (select_sublist lst)))
+  = map (fun e => (fst e, cn (snd e)))
+        (filter (fun e => Q e && holds tv (snd e)) (select_sublist lst)).
+Proof.
+  intros Hcn. rewrite filter_map_swap. cbn [snd]. rewrite filter_filter. f_equal.
+  apply filter_ext_in. intros e He. rewrite (Hcn e He).
+  destruct (holds tv (snd e)) eqn:H.
+  - rewrite <- (Hcn e He) in H. rewrite (val_not_false _ _ H). destruct (Q e); reflexivity.
+  - rewrite !andb_false_r. reflexivity.
+Qed.
+
+Lemma findall_out_spec (lst : list (T * key)) : cn_ok lst ->
+  length (filter (fun e => val tv (snd e)) (findall_out cn lst)) = 1 /\
+  (forall l node, In (l, node) (findall_out cn lst) -> val tv node = true ->
+     l = map fst (filter (fun x => val tv (snd x)) lst)).
+Proof.
+  intros Hcn. split.
+  - unfold findall_out.
+    pose proof (out_filter (fun _ => true) lst Hcn) as E. cbn [andb] in E. rewrite E, map_length.
+    destruct (select_count tv lst (fun _ => true)) as (n & _ & _ & C). exact C.
+  - unfold findall_out. intros l node Hin Hv. apply in_map_iff in Hin.
+    destruct Hin as (e & E & He). inversion E; subst. apply filter_In in He. destruct He as [He _].
+    apply (select_holds_list tv lst e He). rewrite <- (Hcn e He). exact Hv.
+Qed.
+
+Lemma all_out_spec (allow_none : bool) (lst : list (T * key)) : cn_ok lst ->
+  length (filter (fun e => val tv (snd e)) (all_out allow_none cn lst))
+    = (if allow_none || existsb (fun x => val tv (snd x)) lst then 1 else 0) /\
+  (forall l node, In (l, node) (all_out allow_none cn lst) -> val tv node = true ->
+     l = map fst (filter (fun x => val tv (snd x)) lst)).
+Proof.
+  intros Hcn. split.
+  - unfold all_out.
+    rewrite (out_filter (fun e => allow_none || negb (match fst e with [] => true | _ => false end)) lst Hcn), map_length.
+    destruct (select_count tv lst (fun e => allow_none || negb (match fst e with [] => true | _ => false end)))
+      as (n & _ & Hh & C).
+    rewrite C. rewrite (selected_sublist tv lst n Hh).
+    replace (negb match map fst (filter (fun e => val tv (snd e)) lst) with [] => true | _ :: _ => false end)
+      with (existsb (fun x => val tv (snd x)) lst); [reflexivity|].
+    clear. induction lst as [|x r IH]; cbn; [reflexivity|]. destruct (val tv (snd x)); cbn; [reflexivity|exact IH].
+  - unfold all_out. intros l node Hin Hv. apply in_map_iff in Hin.
+    destruct Hin as (e & E & He). inversion E; subst. apply filter_In in He. destruct He as [He _].
+    apply (select_holds_list tv lst e He). rewrite <- (Hcn e He). exact Hv.
+Qed.
+
+Variables (g : graph) (lvl : nat -> nat) (a : N -> bool) (s : nat -> bool) (pn : branch -> key).
+Hypothesis Hac : acyclic_by lvl g.
+Hypothesis Hs : supported g a s.
+
+Lemma eb_key_sound fuel k bs :
+  eb_key g fuel k = Some bs -> existsb (fun mb => pval s (snd mb)) bs = key_val s k.
+Proof.
+  destruct k as [c|]; cbn [eb_key key_val]; intros H.
+  - assert (Hab : above lvl [] c) by (intros x []).
+    rewrite <- (eb_sound g lvl Hac a s Hs fuel [] c bs Hab H).
+    apply existsb_ext_in. intros mb Hmb.
+    pose proof (eb_nonempty g lvl Hac fuel [] c bs Hab H mb Hmb) as Hne.
+    unfold pval. destruct (snd mb); [congruence|reflexivity].
+  - inversion H; subst. reflexivity.
+Qed.
+
+Lemma all_proofs_In fuel (results : list (T * key)) ps :
+  all_proofs g fuel results = Some ps ->
+  forall p, In p ps <-> exists t k bs mb, In (t, k) results /\ eb_key g fuel k = Some bs /\ In mb bs /\
+                                    p = (fst mb, t, snd mb).
+Proof.
+  revert ps. induction results as [|[t k] r IH]; intros ps H p; cbn [all_proofs] in H.
+  - inversion H; subst. split; [intros []|]. intros (t & k & bs & mb & [] & _).
+  - destruct (eb_key g fuel k) as [bs|] eqn:E; [|discriminate].
+    destruct (all_proofs g fuel r) as [ps'|] eqn:E2; [|discriminate].
+    inversion H; subst. rewrite in_app_iff, in_map_iff, (IH ps' eq_refl p). split.
+    + intros [(mb & <- & Hmb)|(t' & k' & bs' & mb & Hin & Hb & Hmb & ->)].
+      * exists t, k, bs, mb. repeat split; auto. left; reflexivity.
+      * exists t', k', bs', mb. repeat split; auto. right; assumption.
+    + intros (t' & k' & bs' & mb & [Heq|Hin] & Hb & Hmb & ->).
+      * inversion Heq; subst. rewrite E in Hb. inversion Hb; subst. left. exists mb. split; auto.
+      * right. exists t', k', bs', mb. repeat split; auto.
+Qed.
+
+(* the main composition *)
+Theorem findall_lists_partition fuel (results : list (T * key)) ps :
+  all_proofs g fuel results = Some ps ->
+  (forall p, In p ps -> p_branch p <> [] -> val tv (pn (p_branch p)) = bval s (p_branch p)) ->
+  cn_ok (findall_lst pn (sort_mx ps)) ->
+  let sorted := sort_mx ps in
+  let out := findall_out cn (findall_lst pn sorted) in
+  length (filter (fun e => val tv (snd e)) out) = 1 /\
+  (forall l node, In (l, node) out -> val tv node = true ->
+     l = map p_term (filter (fun p => pval s (p_branch p)) sorted)) /\
+  (forall t, In t (map p_term (filter (fun p => pval s (p_branch p)) sorted)) <->
+             exists k, In (t, k) results /\ key_val s k = true).
+Proof.
+  intros Hps Hpn Hcn sorted out.
+  destruct (findall_out_spec (findall_lst pn sorted) Hcn) as [C L].
+  split; [exact C|]. split.
+  - intros l node Hin Hv. rewrite (L l node Hin Hv). unfold findall_lst.
+    rewrite filter_map_swap, map_map. cbn [fst snd]. f_equal.
+    apply filter_ext_in. intros p Hp.
+    assert (Hp' : In p ps) by (apply (Permutation_in _ (sort_mx_perm ps)); exact Hp).
+    unfold proof_key, pval. destruct (p_branch p) eqn:B; [reflexivity|].
+    rewrite <- B. apply Hpn; [assumption|]. rewrite B. discriminate.
+  - intros t. rewrite in_map_iff. split.
+    + intros (p & <- & Hp). apply filter_In in Hp. destruct Hp as [Hp Hv].
+      apply (Permutation_in _ (sort_mx_perm ps)) in Hp.
+      apply (all_proofs_In fuel results ps Hps) in Hp.
+      destruct Hp as (t & k & bs & mb & Hin & Hb & Hmb & ->).
+      exists k. split; [exact Hin|]. rewrite <- (eb_key_sound fuel k bs Hb).
+      apply existsb_exists. exists mb. split; assumption.
+    + intros (k & Hin & Hv).
+      assert (exists bs, eb_key g fuel k = Some bs) as [bs Hb].
+      { clear - Hps Hin. revert ps Hps. induction results as [|[t' k'] r IH]; intros ps Hps; [destruct Hin|].
+        cbn [all_proofs] in Hps. destruct (eb_key g fuel k') as [bs|] eqn:E; [|discriminate].
+        destruct (all_proofs g fuel r) as [ps'|] eqn:E2; [|discriminate].
+        destruct Hin as [Heq|Hin]; [inversion Heq; subst; eauto|]. apply (IH Hin ps' eq_refl). }
+      rewrite <- (eb_key_sound fuel k bs Hb) in Hv. apply existsb_exists in Hv.
+      destruct Hv as (mb & Hmb & Hv).
+      exists (fst mb, t, snd mb). split; [reflexivity|]. apply filter_In. split; [|exact Hv].
+      apply (Permutation_in _ (Permutation_sym (sort_mx_perm ps))).
+      apply (all_proofs_In fuel results ps Hps). exists t, k, bs, mb. auto.
+Qed.
+End Findall.
+
+(* ------------------------------------------------------------------ acyclicity witnesses *)
+Lemma topo_acyclic g : topo g -> acyclic_by (fun k => k) g.
+Proof. intros H k nd c N Hc. exact (H k nd c N Hc). Qed.
+
+Lemma acyclic_byb_sound ranks g : acyclic_byb ranks g = true -> acyclic_by (fun k => nth k ranks 0) g.
+Proof.
+  intros H k nd c E Hc. unfold acyclic_byb in H. rewrite forallb_forall in H.
+  destruct k as [|i]; simpl in E; [discriminate|].
+  assert (G : forall st, In (st + i, nd) (combine (seq st (length g)) g)).
+  { clear H. revert i E. induction g as [|x g IH]; intros i E st; [destruct i; discriminate|].
+    destruct i; simpl in *. { inversion E; subst. left. f_equal. lia. }
+    right. specialize (IH i E (S st)).
+    replace (S st + i) with (st + S i) in IH by lia. exact IH. }
+  assert (H0 := G 1). change (1 + i) with (S i) in H0.
+  apply H in H0. cbn [fst snd] in H0. rewrite forallb_forall in H0. apply H0 in Hc.
+  apply Nat.ltb_lt in Hc. exact Hc.
+Qed.
+
+Lemma eb_total_topo g c : topo g -> closed_graph g -> no_empty_and g -> key_of c <= length g ->
+  exists bs, eb g (default_fuel g) [] c = Some bs.
+Proof.
+  intros Ht Hc Hn Hk. apply (eb_total g (fun k => k) (topo_acyclic g Ht) Hc Hn).
+  - intros x [].
+  - exact Hk.
+  - unfold default_fuel. lia.
+Qed.
